@@ -28,7 +28,8 @@ RULE = (
     'generated tree with duplicated / missing / zero / negative ids, preserve_ids=False) and a pool of harness references: '
     'create Entity/Solid/Side/VisGroup/EntityGroup with desired id in {-1, 0, negative, small, id of a live object}, copy() '
     'within / across maps with and without des_id, remove, re-add, drop the harness reference, gc.collect(), grab a reachable '
-    'object, nodeid set/del/pop, fixup set/del/clear/setdefault/construction from FixupValue lists, collapse_one of a '
+    'object, nodeid set/del/pop, fixup set/del/clear/setdefault/construction from FixupValue lists, copies of an EntityFixup '
+    '(copy.copy / deepcopy / pickle round trip / rebuilt from copy_values()) that are then edited alongside their source, collapse_one of a '
     'generated preserve_ids=True template (fresh Instance objects and earlier ones used again), constructor / parse calls that are rejected with the documented ValueError (Side '
     'with != 3 points; Side/Solid/Entity/VisGroup/EntityGroup.parse of malformed blocks - bad plane / uaxis / dispinfo / '
     'groupid / visgroupid / unknown block / bad output - whose ids equal ids of live objects, rejected part-way or tolerated) followed by further allocations.  After every command ids of all objects reachable from the maps are checked per kind.  '
@@ -81,12 +82,12 @@ FAMILIES: dict[str, list[str]] = {
                'reattach', 'copy', 'grab', 'drop', 'gc', 'clear_ent', 'discard_ent', 'discard_ent'],
     # fixups (judged: fixup indexes only)
     'fixup': ['new_fix', 'new_fix', 'fix_set', 'fix_set', 'fix_set', 'fix_del', 'fix_del', 'fix_clear', 'fix_default',
-              'copy', 'fix_many'],
+              'copy', 'fix_many', 'fix_copy', 'fix_copy'],
     # instancing.collapse_one
     'collapse': ['new_ent', 'new_solid', 'new_vis', 'collapse', 'collapse', 'collapse', 'grab', 'detach', 'drop', 'copy'],
     'mixed': ['new_ent', 'new_ent', 'new_solid', 'new_side', 'new_vis', 'new_group', 'new_node', 'new_fix', 'copy', 'copy',
               'detach', 'remove_ent', 'remove_ent', 'reattach', 'drop', 'drop', 'gc', 'grab', 'set_node', 'del_node',
-              'fix_set', 'fix_del', 'collapse', 'bad_side', 'bad_parse', 'clear_ent', 'discard_ent'],
+              'fix_set', 'fix_del', 'fix_copy', 'collapse', 'bad_side', 'bad_parse', 'clear_ent', 'discard_ent'],
 }
 JUDGE = {
     'alloc': ('ent', 'solid', 'side', 'vis', 'group'),
@@ -242,6 +243,8 @@ class World:
         self.last_op = ''
         self.n_collapse = 0
         self.instances = []         # instancing.Instance objects of earlier collapses (no references to map objects)
+        self.fixmaps = []           # stand-alone EntityFixup mappings (copies of an entity's fixups), named f0, f1, ...
+        self.fix_rel = []           # [mapping, copy-family number, 'a variable was deleted from it'] (identity-keyed)
 
     def log(self, text: str) -> None:
         self.trace.append(text)
@@ -362,19 +365,26 @@ def check_maps(w: World) -> None:
                 nodes[nid] = e
         if 'fixup' in w.judge:
             for e in reach['ent']:
-                vals = e.fixup.copy_values()
-                idx = [fv.id for fv in vals]
-                for n in idx:
-                    if type(n) is not int or n < 1:
-                        w.fail('fixup_positive', f'm{mi}: entity {w.name(e)} has fixup index {n!r}: '
-                               f'{[(fv.var, fv.id) for fv in vals]}', kind='fixup')
-                        break
-                if len(set(idx)) != len(idx):
-                    w.fail('fixup_unique', f'm{mi}: entity {w.name(e)} has repeated fixup indexes: '
-                           f'{[(fv.var, fv.id) for fv in vals]}', kind='fixup')
+                check_fixup(w, f'm{mi}: entity {w.name(e)}', e.fixup)
     del reach
+    if 'fixup' in w.judge:
+        # copies of an entity's fixup mapping (copy.copy / deepcopy / pickle / rebuilt from copy_values()): each is the
+        # fixup set of one (would-be) entity, so its indexes are judged exactly like those of an attached entity.
+        for fi, fm in enumerate(w.fixmaps):
+            check_fixup(w, f'fixup mapping f{fi}', fm)
     for mi, vmf in enumerate(w.maps):
         follow_up(w, mi, vmf)
+
+
+def check_fixup(w: World, what: str, fixup) -> None:
+    vals = fixup.copy_values()
+    idx = [fv.id for fv in vals]
+    for n in idx:
+        if type(n) is not int or n < 1:
+            w.fail('fixup_positive', f'{what} has fixup index {n!r}: {[(fv.var, fv.id) for fv in vals]}', kind='fixup')
+            break
+    if len(set(idx)) != len(idx):
+        w.fail('fixup_unique', f'{what} has repeated fixup indexes: {[(fv.var, fv.id) for fv in vals]}', kind='fixup')
 
 
 def follow_up(w: World, mi: int, vmf) -> None:
@@ -1126,61 +1136,120 @@ def op_new_fix(w: World, a, b, c, d, e):
     w.log(f'p{len(w.pool) - 1} = Entity(m{mi}, fixup=[FixupValue(var, value, id) for var, id in {spec}]); add_ent')
 
 
-def op_fix_set(w: World, a, b, c, d, e):
-    i = w.pick('ent', a)
-    if i < 0:
+def pick_fix(w: World, n: int):
+    """(name, mapping) of the n-th (modulo) fixup mapping the harness can reach: those of held entities, then the copies."""
+    cands = [(f'p{i}.fixup', r[1].fixup) for i, r in enumerate(w.pool) if r[0] == 'ent']
+    cands += [(f'f{j}', fm) for j, fm in enumerate(w.fixmaps)]
+    return cands[n % len(cands)] if cands else (None, None)
+
+
+def fix_rel(w: World, fm):
+    for rec in w.fix_rel:
+        if rec[0] is fm:
+            return rec
+    rec = [fm, len(w.fix_rel), False, len(w.fix_rel)]
+    w.fix_rel.append(rec)
+    return rec
+
+
+def fix_freed(w: World, fm) -> None:
+    w.note_free('fixup')
+    fix_rel(w, fm)[2] = True
+
+
+def fix_alloc(w: World, fm) -> None:
+    """A new variable was added to fm."""
+    w.note_alloc('fixup')
+    me = fix_rel(w, fm)
+    if any(rec[1] == me[1] and rec[2] and rec[0] is not fm for rec in w.fix_rel):
+        # a copy-relative of this mapping lost a variable earlier: the two mappings must not influence each other
+        w.flag('fixup_alloc_after_free_in_copy_relative')
+        w.nontrivial = True
+    if any(rec[3] == me[3] and rec[2] and rec[0] is not fm for rec in w.fix_rel):
+        w.flag('fixup_alloc_after_free_in_shallow_copy_relative')   # related through copy.copy() only
+
+
+def op_fix_copy(w: World, a, b, c, d, e):
+    import copy
+    import pickle
+    from srctools.vmf import EntityFixup
+    name, src = pick_fix(w, a)
+    if src is None or len(w.fixmaps) >= 4:
         return
-    ent = w.pool[i][1]
+    mode = (0, 0, 0, 1, 1, 2, 2, 3)[b % 8]
+    how = ('copy.copy({})', 'copy.deepcopy({})', 'pickle.loads(pickle.dumps({}))', 'EntityFixup({}.copy_values())')[mode]
+    if mode == 0:
+        new = copy.copy(src)
+    elif mode == 1:
+        new = copy.deepcopy(src)
+    elif mode == 2:
+        new = pickle.loads(pickle.dumps(src))
+    else:
+        new = EntityFixup(src.copy_values())
+    rel = fix_rel(w, src)
+    w.fixmaps.append(new)
+    w.fix_rel.append([new, rel[1], False, rel[3] if mode == 0 else len(w.fix_rel)])
+    w.flag('fix_copy:' + how.split('(')[0])
+    w.log(f'f{len(w.fixmaps) - 1} = {how.format(name)}  -> {[(fv.var, fv.id) for fv in new.copy_values()]}')
+
+
+def op_fix_set(w: World, a, b, c, d, e):
+    name, fixup = pick_fix(w, a)
+    if fixup is None:
+        return
     var = VARS[b % len(VARS)]
-    new = var not in ent.fixup
-    ent.fixup[var] = 'set%d' % c
-    w.log(f'p{i}.fixup[{var!r}] = ...  -> {[(fv.var, fv.id) for fv in ent.fixup.copy_values()]}')
+    new = var not in fixup
+    fixup[var] = 'set%d' % c
+    w.log(f'{name}[{var!r}] = ...  -> {[(fv.var, fv.id) for fv in fixup.copy_values()]}')
     if new:
-        w.note_alloc('fixup')
+        fix_alloc(w, fixup)
 
 
 def op_fix_del(w: World, a, b, c, d, e):
-    i = w.pick('ent', a)
-    if i < 0:
+    name, fixup = pick_fix(w, a)
+    if fixup is None:
         return
-    ent = w.pool[i][1]
-    vals = ent.fixup.copy_values()
+    vals = fixup.copy_values()
     if not vals:
         return
     var = vals[b % len(vals)].var
     if c % 2:
         var = '$' + var.upper()
-    del ent.fixup[var]
-    w.log(f'del p{i}.fixup[{var!r}]')
-    w.note_free('fixup')
+    del fixup[var]
+    w.log(f'del {name}[{var!r}]')
+    fix_freed(w, fixup)
     w.flag('fix_del')
 
 
 def op_fix_clear(w: World, a, b, c, d, e):
-    i = w.pick('ent', a)
-    if i < 0:
+    name, fixup = pick_fix(w, a)
+    if fixup is None:
         return
-    ent = w.pool[i][1]
-    if len(ent.fixup):
-        w.note_free('fixup')
     if b % 2:
-        ent.fixup.clear()
-        w.log(f'p{i}.fixup.clear()')
+        if len(fixup):
+            fix_freed(w, fixup)
+        fixup.clear()
+        w.log(f'{name}.clear()')
     else:
-        ent.fixup.update({VARS[c % len(VARS)]: '1', VARS[d % len(VARS)]: '2'})
-        w.note_alloc('fixup')
-        w.log(f'p{i}.fixup.update(<2 vars>)  -> {[(fv.var, fv.id) for fv in ent.fixup.copy_values()]}')
+        if len(fixup):
+            w.note_free('fixup')
+        fixup.update({VARS[c % len(VARS)]: '1', VARS[d % len(VARS)]: '2'})
+        fix_alloc(w, fixup)
+        w.log(f'{name}.update(<2 vars>)  -> {[(fv.var, fv.id) for fv in fixup.copy_values()]}')
 
 
 def op_fix_default(w: World, a, b, c, d, e):
-    i = w.pick('ent', a)
-    if i < 0:
+    name, fixup = pick_fix(w, a)
+    if fixup is None:
         return
-    ent = w.pool[i][1]
     var = VARS[b % len(VARS)]
-    ent.fixup.setdefault(var, 'dflt')
-    w.note_alloc('fixup')
-    w.log(f'p{i}.fixup.setdefault({var!r}, "dflt")  -> {[(fv.var, fv.id) for fv in ent.fixup.copy_values()]}')
+    new = var not in fixup
+    fixup.setdefault(var, 'dflt')
+    if new:
+        fix_alloc(w, fixup)
+    else:
+        w.note_alloc('fixup')
+    w.log(f'{name}.setdefault({var!r}, "dflt")  -> {[(fv.var, fv.id) for fv in fixup.copy_values()]}')
 
 
 def op_fix_many(w: World, a, b, c, d, e):
@@ -1254,7 +1323,7 @@ OPS = {
     'new_group': op_new_group, 'copy': op_copy, 'reattach': op_reattach, 'detach': op_detach, 'remove_ent': op_remove_ent,
     'drop': op_drop, 'gc': op_gc, 'grab': op_grab, 'new_node': op_new_node, 'set_node': op_set_node, 'del_node': op_del_node,
     'new_fix': op_new_fix, 'fix_set': op_fix_set, 'fix_del': op_fix_del, 'fix_clear': op_fix_clear,
-    'fix_default': op_fix_default, 'fix_many': op_fix_many, 'collapse': op_collapse,
+    'fix_default': op_fix_default, 'fix_copy': op_fix_copy, 'fix_many': op_fix_many, 'collapse': op_collapse,
     'bad_side': op_bad_side, 'bad_parse': op_bad_parse, 'clear_ent': op_clear_ent, 'discard_ent': op_discard_ent,
 }
 
@@ -1326,6 +1395,8 @@ def execute(desc, ctx):
             ctx.label(f)
         ctx.nontrivial(w.nontrivial)
         w.pool.clear()
+        w.fixmaps.clear()
+        w.fix_rel.clear()
         w.maps.clear()
         w.tmpl = None
         gc.unfreeze()
@@ -1353,8 +1424,11 @@ SUBCHECKS = [
     _sub('nodeid', 800, 14000, 50, ('alloc_after_free:node', 'del_node', 'set_node_attached', 'set_node_detached',
                                     'nodeid_equals_an_entity_id',
                                     'reattach:ent')),
-    _sub('fixup', 500, 14000, 50, ('alloc_after_free:fixup', 'fixup_list_duplicate_index', 'fixup_list_nonpositive_index',
-                                   'fix_del', 'fixup_over_100')),
+    _sub('fixup', 1200, 14000, 50, ('alloc_after_free:fixup', 'fixup_list_duplicate_index', 'fixup_list_nonpositive_index',
+                                   'fix_del', 'fixup_over_100', 'fix_copy:copy.copy', 'fix_copy:copy.deepcopy',
+                                   'fix_copy:pickle.loads', 'fix_copy:EntityFixup',
+                                   'fixup_alloc_after_free_in_copy_relative',
+                                   'fixup_alloc_after_free_in_shallow_copy_relative')),
     _sub('collapse', 400, 10000, 50, ('collapse_nonempty', 'collapse_twice', 'collapse_reused_instance_with_node_ids',
                                       'collapse_visgroup:True',
                                       'collapse_visgroup:False', 'collapse_visgroup:object')),
